@@ -236,6 +236,10 @@ Rewrites(ns) ==
                                                                          )) : o \in {x \in Ops(ns) : ns[x].name # ""}}
   \cup {RW("operation-name-uniqueness", "second-operation",
            AppendNodes([ns EXCEPT ![o1] = [@ EXCEPT !.name = "Dup"]], <<[Mk("OP", 0, "Dup", "", "", <<>>, <<>>, "query", "")  EXCEPT !.parent = 0], [NewF("__typename", Roots.query) EXCEPT !.parent = 1]>>))}
+  \* the same name borne by operations of different types
+  \cup {RW("operation-name-uniqueness", "second-operation-of-another-type",
+           AppendNodes([ns EXCEPT ![o1] = [@ EXCEPT !.name = "Dup"]], <<[Mk("OP", 0, "Dup", "", "", <<>>, <<>>, "mutation", "")  EXCEPT !.parent = 0], [NewF("m3", Roots.mutation) EXCEPT !.parent = 1]>>)) :
+           x \in IF ns[o1].optype = "mutation" THEN {} ELSE {1}}
   \cup {RW("lone-anonymous-operation", "second-operation",
            AppendNodes([ns EXCEPT ![o1] = [@ EXCEPT !.name = ""]], <<Mk("OP", 0, x, "", "", <<>>, <<>>, "query", ""), [NewF("__typename", Roots.query) EXCEPT !.parent = 1]>>)) : x \in {"", "Other"}}
   \cup {RW("single-root-field", "operation-root", AddChildLast(ns, o, NewF("evs", Roots.subscription))) : o \in {x \in Ops(ns) : ns[x].optype = "subscription"}}
